@@ -633,6 +633,18 @@ def spacing_cases(ctx):
         rep = i % 3 == 0
         spec = G.gen_engine_spec(rng, d, mode="grid" if rep else "float", representable=rep,
                                  force_terms=["Function"] if i % 2 else ["Discrete"], size="small")
+        # two accidents of the random names and numbers, kept out of this family (no draw is involved): an inert
+        # substitution variable of a Function term that carries the name of a variable of the engine (a name clash that
+        # membership() must reject - C17 - and that the FuzzyLite Language, which does not carry substitution variables,
+        # cannot reproduce), and a shape parameter that is exactly 0 (a width or slope of 0 divides by zero: ZeroDivisionError
+        # with the Python floats of a built engine, inf / nan with the NumPy floats of an imported one)
+        names = {v["name"] for v in spec["inputs"] + spec["outputs"]}
+        for v in spec["inputs"] + spec["outputs"]:
+            for t in v["terms"]:
+                for k in [k for k in t.get("variables", {}) if k in names]:
+                    del t["variables"][k]
+                if "params" in t:
+                    t["params"] = [G.fhex(10.0 ** -d) if G.unhex(x) == 0 else x for x in t["params"]]
         G.respace(rng, spec)
         if i % 2 == 0:
             # pairs of Discrete terms in any order (descending, shuffled, repeated abscissa), terms built through every
